@@ -417,6 +417,57 @@ def charset_sequence(ctx):
                          f'{type(exc).__name__}: {exc}')
 
 
+def big_track_cases(ctx):
+    """Track chunks whose size crosses 64 KiB, 1 000 000 bytes and 1 MiB while every single message
+    stays small (16 000-byte sysex messages, note and text events)."""
+    import struct
+    from mido import Message, MetaMessage
+    n = 0
+    targets = [65535, 65536, 65537, 1000000, 1000001, 1048577]
+    if ctx.tier == 'thorough':
+        targets += [999999, 1048575, 1048576, 1100000, 2 ** 21 + 1, 5000000]
+    for ti, target in enumerate(targets):
+        for style in ('sysex', 'notes'):
+            if style == 'notes' and target > 100000 and (ctx.tier == 'quick' or target > 1100000):
+                continue        # a quarter of a million note events take mido ~10 s to read
+            case = {'kind': 'big-track', 'chunk_bytes': target, 'style': style}
+            tr = MidiTrack()
+            eot = 4                                   # 00 FF 2F 00
+            size = 0
+            if style == 'sysex':
+                unit = 1 + 1 + 2 + 16000 + 1          # delta F0 VLQ(16001) data F7
+                while size + unit + eot + 200 <= target:
+                    tr.append(Message('sysex', data=[(len(tr) + i) % 128 for i in range(16000)], time=len(tr) % 100))
+                    size += unit
+            else:
+                # 3-byte events under running status would be 3 bytes; mido writes status bytes: delta(1) + 3
+                while size + 4 + eot + 200 <= target:
+                    tr.append(Message('note_on', channel=len(tr) % 16, note=len(tr) % 128, velocity=1 + len(tr) % 127, time=len(tr) % 128))
+                    size += 4
+            # fill up exactly with one text event: 00 FF 01 VLQ(len) text
+            rest = target - size - eot
+            ln = rest - 4 if rest - 4 < 128 else rest - 5
+            if ln < 0 or (ln >= 128 and rest - 5 < 128):
+                continue
+            tr.append(MetaMessage('text', text='x' * ln, time=0))
+            mid = MidiFile(type=1)
+            mid.tracks.append(tr)
+            mid.tracks.append(MidiTrack([Message('note_on', time=3)]))
+            try:
+                b = save_bytes(mid, real_file=(ti % 2 == 0))
+                chunk = struct.unpack('>L', b[18:22])[0]
+                ctx.check('storable => saves', chunk == target, 'big-track:chunk-size', case, {'chunk_bytes_written': chunk})
+                back = load_bytes(b, real_file=(ti % 2 == 0))
+                want = list(tr) + [MetaMessage('end_of_track', time=0)]
+                ctx.check('tracks == fold_eot(original)', len(back.tracks) == 2 and same_msgs(list(back.tracks[0]), want)
+                          and len(back.tracks[1]) == 2, 'big-track:differs', case,
+                          lambda: {'tracks': len(back.tracks), 'messages': [len(t) for t in back.tracks], 'want': len(want)})
+            except Exception as exc:
+                ctx.fail('tracks == fold_eot(original)', f'big-track:{type(exc).__name__}', case, f'{type(exc).__name__}: {exc}'[:300])
+            n += 1
+    return n
+
+
 def run(ctx):
     n = 0
     nr = 120 if ctx.tier == 'quick' else 6000
@@ -438,6 +489,11 @@ def run(ctx):
         ctx.extra('unstorable_table_cases', k)
         n += k
         charset_sequence(ctx)
+    if ctx.shard == 1 % ctx.nshards:
+        k = big_track_cases(ctx)
+        ctx.nontrivial(None, k)
+        ctx.extra('big_track_cases', k)
+        n += k
     nf = 130 if ctx.tier == 'quick' else 12500
     loaded = 0
     for j in range(nf):
@@ -464,5 +520,7 @@ def replay(ctx, case):
         fixed_point_case(ctx, case['seed'])
     elif k == 'charsetseq':
         charset_sequence(ctx)
+    elif k == 'big-track':
+        big_track_cases(ctx)
     else:
         unstorable_cases(ctx)
